@@ -139,10 +139,11 @@ def run_case(case):
                 classes.add('accepted' if all_ok else 'refused')
                 if bid is None:
                     continue
-                if not all_ok and 'uncommitted-update1-job-scheduled' in w.guards and \
+                if not all_ok and ({'uncommitted-update1-job-scheduled', 'uncommitted-child-made-ready-by-parent-completion'} & w.guards) and \
                         w.q('SELECT 1 AS x FROM batch_updates INNER JOIN jobs ON jobs.batch_id = batch_updates.batch_id AND jobs.update_id = batch_updates.update_id '
-                            'WHERE batch_updates.batch_id = %s AND batch_updates.update_id = 1 AND NOT committed', (bid,)):
-                    # known finding (C41/C01): later committed updates would let the scheduler run these uncommitted jobs; stop here
+                            'WHERE batch_updates.batch_id = %s AND NOT committed', (bid,)):
+                    # known findings (C41/C01): jobs of an update that stays uncommitted would be made ready / scheduled by the
+                    # driver as soon as the batch runs; the case stops here (excluded by construction, counted)
                     classes.add('excluded_known_uncommitted_update1')
                     stop_after = True
                 else:
